@@ -448,6 +448,9 @@ def fresh_str(E, name, maxlen, constraint=any_unicode, minlen=0):
     """symbolic string input: forks over the length, then one z3 Int per character.  Concrete mode: the stored str."""
     if E.mode == 'conc':
         E.inputs[name] = ('str', None)
+        if name not in E.values:
+            from .core import Unsupported
+            raise Unsupported('replayed model has no value for the string input %s' % name)
         return E.values[name]
     n = minlen
     while n < maxlen and E.decide(z3.Bool('%s.len>%d' % (name, n))):
